@@ -76,5 +76,67 @@ def _install_hypotest_observer():
     infer.hypotest = hypotest
 
 
+# ---- harness-side observer for C06: the five test statistics are wrapped (in the module that defines them and in every module that
+# imported them by name) so that every call a test makes is bracketed by ts.call / ts.return around the H4 records of its two fits
+_TS = {"tmu": "t", "tmu_tilde": "ttilde", "qmu": "q", "qmu_tilde": "qtilde", "q0": "q0"}
+
+
+def _install_teststat_observer():
+    try:
+        import sys
+        import pyhf
+        from pyhf import _verif
+        import pyhf.infer.test_statistics as tsmod
+    except Exception:  # noqa: BLE001
+        return
+    if not _verif.ON or getattr(tsmod.qmu, "_verif_wrapped", False):
+        return
+
+    def wrap(name, kind, orig):
+        def stat(mu, data, pdf, init_pars, par_bounds, fixed_params, return_fitted_pars=False):
+            ok = False
+            try:
+                tl = pyhf.tensorlib
+                cfg = pdf.config
+                init = [float(x) for x in tl.tolist(tl.astensor(init_pars if init_pars is not None else cfg.suggested_init()))]
+                fixed = [bool(x) for x in (fixed_params if fixed_params is not None else cfg.suggested_fixed())]
+                m = mu if isinstance(mu, (int, float)) else tl.tolist(tl.astensor(mu))
+                while isinstance(m, list):
+                    m = m[0]
+                _verif.emit("ts.call", kind=kind, mu=float(m), poi=cfg.poi_index,
+                            held=[[i, init[i]] for i in range(len(fixed)) if fixed[i] and i != cfg.poi_index])
+                ok = True
+            except Exception:  # noqa: BLE001
+                pass
+            res = orig(mu, data, pdf, init_pars, par_bounds, fixed_params, return_fitted_pars=return_fitted_pars)
+            if ok:
+                try:
+                    tl = pyhf.tensorlib
+                    val, pars = (res[0], res[1]) if return_fitted_pars else (res, None)
+                    v = tl.tolist(val)
+                    while isinstance(v, list):
+                        v = v[0]
+                    rec = {"result": float(v)}
+                    if pars is not None:
+                        rec["pars1"] = [float(x) for x in tl.tolist(pars[0])]
+                        rec["pars2"] = [float(x) for x in tl.tolist(pars[1])]
+                    _verif.emit("ts.return", **rec)
+                except Exception:  # noqa: BLE001
+                    pass
+            return res
+        stat._verif_wrapped = True
+        stat.__name__ = name
+        stat.__doc__ = orig.__doc__
+        return stat
+
+    for name, kind in _TS.items():
+        orig = getattr(tsmod, name)
+        w = wrap(name, kind, orig)
+        for mod in list(sys.modules.values()):
+            if mod is not None and getattr(mod, "__name__", "").startswith("pyhf") and getattr(mod, "__dict__", {}).get(name) is orig:
+                setattr(mod, name, w)
+
+
 def pytest_sessionstart(session):
     _install_hypotest_observer()
+    _install_teststat_observer()
